@@ -57,6 +57,11 @@ theorem isRawLen_iff (n : Int) : IsRawLen n ↔ (1 ≤ n ∧ n ≤ 4611686018427
 theorem IsLen.inInt {n : Int} (h : IsLen n) : InInt n := by
   rw [isLen_iff] at h; rw [inInt_iff]; omega
 
+theorem isLen_nat {n : Nat} (h : (n : Int) < 4611686018427387904) : IsLen (n : Int) := by
+  rw [isLen_iff]; omega
+
+theorem inInt_wrap64 (x : Int) : InInt (wrap64 x) := wrap64_range x
+
 namespace GenSem
 
 theorem bnot_eq_true (b : Bool) : ((!b) = true) ↔ ¬ (b = true) := by cases b <;> simp
@@ -126,7 +131,10 @@ theorem swap_reject (env : Env) (hu : IsLen env.ulen) (hi : InInt env.i) (hj : I
       decide (¬ ((0 ≤ env.i ∧ env.i < env.ulen) ∧ (0 ≤ env.j ∧ env.j < env.ulen))) := by
   guard_arith [Gen.swap_reject]
 
-theorem replace_ok (env : Env) (hu : IsLen env.ulen) (hi : InInt env.i) :
+/-- no range is assumed for `env.i`: the heap model of C19 (`replaceSlots`) instantiates it with an
+arbitrary natural number. Rewrites that compute with `i` itself (`i+1 <= ulen`) are therefore not
+covered; comparisons of `i` with a computed bound (`i <= ulen-1`, `i > -1`) are. -/
+theorem replace_ok (env : Env) (hu : IsLen env.ulen) :
     Gen.replace_ok env = decide (0 ≤ env.i ∧ env.i < env.ulen) := by
   guard_arith [Gen.replace_ok]
 
